@@ -1,21 +1,30 @@
 (* C08 -- the LR(1) generator builds a parser for exactly the grammar's language.
 
-   Proved here, for ALL first-order tables T, certificates C, grammars G, token lists
+   Proved here, for ALL first-order tables T, certificates, grammars G, token lists
    and fuel (no size bound):
      run_sound       tables accepted by `check_sound` only ever return derivation trees
                      of the start symbol whose leaves are the input tokens in order;
      run_sound_gen   the same without the side condition that no input token carries the
                      END_OF_INPUT symbol (Parser.parse stops at the first such token);
-     run_prefix_det  an error at index i depends only on tokens 0..i.
-   The generator lr1.py is covered per instance: harness/props/c08.py applies the
-   verified `check_sound` to the tables lr1.py builds on every run.
+     run_prefix_det  an error at index i depends only on tokens 0..i;
+     run_complete    tables accepted by `check_complete` (LR(1) item sets + FIRST sets as
+                     certificate) return every derivation tree of the start symbol, given
+                     enough fuel;
+     error_not_late  with `check_complete`, an error at index i means that no sentence
+                     starts with tokens 0..i (so a rejected input is not a sentence);
+     sentence_result on a sentence `run` returns its tree or runs out of fuel, nothing else.
+   run_sound + run_complete: accepted <-> derivable, and the tree is THE derivation given.
+   The generator lr1.py is covered per instance: harness/props/c08.py applies the verified
+   checkers to the tables and item sets lr1.py builds on every run.
 
-   GAP (named in META.level_note as "sound; completeness partial"): `run_complete`
-   (every derivation tree is returned) and `error_not_late`/`error_not_early` are not
-   proved; that direction is covered by differential testing against an independent
-   Earley recogniser only. *)
+   GAP (META.level_note): `error_not_early` (no token is shifted unless some sentence
+   continues) is not proved -- it is false for grammars with unproductive nonterminals
+   (candidate finding lr1-error-reported-late:unproductive-nonterminals) and is tested
+   against an Earley recogniser for the others; "conflicts are reported whenever the
+   construction is not deterministic" is covered only through check_complete failing
+   (or Earley finding two derivations) on a table reported conflict-free. *)
 From Coq Require Import NArith List.
-Require Import EmbossV.LR.Driver EmbossV.LR.Sound EmbossV.LR.Examples.
+Require Import EmbossV.LR.Driver EmbossV.LR.Sound EmbossV.LR.Complete EmbossV.LR.Examples.
 Import ListNotations.
 
 Theorem run_sound : forall G T C fuel toks t,
@@ -37,3 +46,23 @@ Theorem check_sound_nonvacuous :
   exists G T C toks fuel t,
     check_sound G T C = true /\ ~ In (t_eoi T) toks /\ run T fuel toks = Accepted t /\ toks <> [].
 Proof. exact Examples.check_sound_nonvacuous. Qed.
+
+Theorem run_complete : forall G T I F t toks,
+  check_complete G T I F = true -> derives G (g_start G) t 0%nat toks ->
+  exists n, forall fuel, (n <= fuel)%nat -> run T fuel toks = Accepted t.
+Proof. exact Complete.run_complete. Qed.
+
+Theorem error_not_late : forall G T I F fuel toks c i tok st e,
+  check_complete G T I F = true ->
+  run T fuel toks = Rejected c i tok st e ->
+  forall toks' t, firstn (S i) toks' = firstn (S i) toks -> ~ derives G (g_start G) t 0%nat toks'.
+Proof. exact Complete.error_not_late. Qed.
+
+Theorem sentence_result : forall G T I F t toks fuel,
+  check_complete G T I F = true -> derives G (g_start G) t 0%nat toks ->
+  run T fuel toks = Accepted t \/ run T fuel toks = OutOfFuel.
+Proof. exact Complete.sentence_result. Qed.
+
+Theorem check_complete_nonvacuous :
+  exists G T I F t toks, check_complete G T I F = true /\ derives G (g_start G) t 0%nat toks /\ toks <> [].
+Proof. exact Examples.check_complete_nonvacuous. Qed.
